@@ -64,3 +64,89 @@ func zzH_C08srv() {
 		vReach("end")
 	})
 }
+
+// zzH_C08seq: sequences of well-formed frames of every kind a peer can send — calls, pings and the
+// three stream frames, naming known, unknown and non-stream methods and known or unknown stream ids —
+// followed by a probe and the disconnect: no panic, the probe is answered.
+func zzH_C08seq() {
+	n := vParam("seq.N", 2)
+	log := &zzLog{}
+	mode := vChoose("mode", 3)
+	s, _ := zzNewServer(log, mode == 2, mode == 1, false, false)
+	m := newZZMsgs(8)
+	m.yieldW = false
+	codec := NewServerCodec(&zzBytesCodec{}, nil, m, true, 64)
+	vGo("server", func() { s.ServeCodec(codec) })
+	for i := 0; i < n; i++ {
+		seq := uint64(5 + vChoose("seq", 2))
+		switch vChoose("frame", 7) {
+		case 0:
+			m.deliver(zzRequest(seq, nil, "S.Echo", []byte{0x41}))
+		case 1:
+			m.deliver(zzRequest(seq, zzUpgBytes(zzUpgPing), "", nil))
+		case 2:
+			m.deliver(zzRequest(seq, zzUpgBytes(zzUpgOpenStream), "S.Watch", nil))
+		case 3:
+			m.deliver(zzRequest(seq, zzUpgBytes(zzUpgOpenStream), "S.Nope", nil))
+		case 4:
+			m.deliver(zzRequest(seq, zzUpgBytes(zzUpgOpenStream), "S.Echo", nil))
+		case 5:
+			m.deliver(zzRequest(seq, zzUpgBytes(zzUpgStreaming), "", []byte{0x42}))
+		case 6:
+			m.deliver(zzRequest(seq, zzUpgBytes(zzUpgCloseStream), "", nil))
+		}
+		vQuiesce()
+	}
+	m.deliver(zzRequest(9, nil, "S.Echo", []byte{0x11}))
+	vQuiesce()
+	m.fail(io.EOF)
+	vAtEnd(func() {
+		cnt := 0
+		for _, r := range zzDecodeResponses(m) {
+			if r.Seq == 9 {
+				cnt++
+				vAssert(r.Error == "" && vEqBytes(r.Reply, []byte{0x52, 0x11}), "probe-reply")
+			}
+		}
+		vAssert(cnt == 1, "probe-answered-once")
+		vReach("end")
+	})
+}
+
+// zzH_C08big: frames with long varints: a tag byte, a varint of 1..10 bytes with symbolic payload
+// bits (so lengths up to 2^64-1, including values whose sum with an offset wraps), and up to two
+// more bytes. Every header decoder must return without an unrecovered panic.
+func zzH_C08big() {
+	k := 1 + vChoose("varint-bytes", 10)
+	tail := vChoose("tail", 3)
+	data := make([]byte, 0, 16)
+	data = append(data, vByte("tag"))
+	for i := 0; i < k; i++ {
+		b := vByte("v")
+		if i < k-1 {
+			vAssume(b >= 0x80)
+		} else {
+			vAssume(b < 0x80)
+		}
+		data = append(data, b)
+	}
+	for i := 0; i < tail; i++ {
+		data = append(data, vByte("t"))
+	}
+	frame := append([]byte(nil), data...) // capacity = length: nothing beyond the frame
+	switch vChoose("decoder", 4) {
+	case 0:
+		vTag("sig:pbRequest")
+		(&pbRequest{}).Unmarshal(frame)
+	case 1:
+		vTag("sig:pbResponse")
+		(&pbResponse{}).Unmarshal(frame)
+	case 2:
+		vTag("sig:codeRequest")
+		(&request{}).Unmarshal(frame[1:])
+	case 3:
+		vTag("sig:codeResponse")
+		(&response{}).Unmarshal(frame[1:])
+	}
+	vReach("end")
+}
